@@ -39,6 +39,14 @@ CHECKS = {
         text="For each seeded response every destination capacity 0..=len+1 is enumerated against a sink that also injects short writes and Interrupted per a seeded script, in both full-sink modes, plus bounded &mut [u8] destinations; all 900 status codes are covered per batch. Output bytes, returned count, failure on insufficient capacity and prefix-on-failure are checked.",
         note="Trusted: http crate's canonical_reason as the reason-phrase reference; the expected grammar is built by the harness from the documented format.",
         technique=TECH + ": fault-injecting io::Write sink, capacity exhaustion enumerated at every byte"),
+    "C07": dict(engine="D2", cat="exploration", ref="DESIGN.md 4/C07",
+        text="Seeded search over connection histories: the real Token::run task on a deterministic executor over a simulated transport (reads of 1..n bytes or Pending, writes accepting 1..n bytes or Pending at every call, spurious polls), a compliant open-loop client with 1..4 requests and noise records, and a chooser-driven handler family. The decoded transport log and handler log are compared with M-conn: one invocation per request with the model's environment and input prefix, handler output, Stdout{} Stderr{} and exactly one EndRequest with the mapped status, replies exactly once in order and after their query, reuse iff keep-conn, task termination.",
+        note="Trusted: M-conn, wire codec. Does not constrain the order of management replies relative to EndRequest beyond causality.",
+        technique=TECH + ": deterministic executor + simulated transport + peer model, history checked against reference model"),
+    "C08": dict(engine="D2", cat="exploration", ref="DESIGN.md 4/C08",
+        text="The same connection machinery in strict wake-only mode with the closed-loop peer of the quantifier; invariant evaluated at every suspension on the transport read (all replies for complete records already read are in the transport log) and wait-for-cycle detection at quiescence, with queries placed before, between and during requests and mid-stream. Found and now guards the two repaired defects F1/F2.",
+        note="Trusted: executor strictness (a task is polled only after its waker fired), M-conn reply list. Valid under the closed-loop peer only (whole records, later ones withheld).",
+        technique=TECH + ": strict deterministic executor + closed-loop peer, suspension-point invariant and deadlock detection"),
 }
 
 NOT_APPLICABLE = [
@@ -80,6 +88,7 @@ def main():
             "enable": "the simulator crate /verif/sim depends on /repo by path with features async,http,verif-hooks (cargo build --release --offline --features hooks)",
             "baseline_off_cmd": "cd /repo && cargo test --workspace --no-fail-fast --offline",
             "source_commits": ["122a3c0"],
+            "fix_commits": ["23fc2ba", "7771926"],
             "add_only": True,
         },
         "engines": [
